@@ -140,5 +140,6 @@ func init() {
 		r.Explore(c01Profile(r.Tier))
 		runWide(r)
 		runKVLong(r, "C01", []core.Cfg{{Mode: core.K, Seg: 392}, {Mode: core.KV, RW: core.M, Start: core.M, Seg: 392}})
+		runValues(r, "C01", false, []int{core.KV, core.K})
 	}
 }
